@@ -31,6 +31,7 @@ func DefaultConfig() *Config {
 }
 
 type Exec struct {
+	nameOverride  string // the recorded name of a function under contract that moved (rename.go)
 	siteBindings  []Val // captured-variable cells of the closure whose contract is being applied
 	P       *Program
 	D       *Decls
@@ -159,6 +160,9 @@ func blockPos(b *ssa.BasicBlock) token.Pos {
 // VerifyFunction explores fn under its contract and collects obligations.
 func (x *Exec) VerifyFunction(fn *ssa.Function, c *Contract) {
 	x.Top, x.TopC, x.TopName = fn, c, CanonName(fn)
+	if x.nameOverride != "" {
+		x.TopName = x.nameOverride
+	}
 	if x.relationalWanted() && !x.inTwin {
 		x.inTwin = true
 		x.VerifyFunction(fn, c)
@@ -738,7 +742,7 @@ func (x *Exec) jump(st *State, fr *Frame, b *ssa.BasicBlock) bool {
 	}
 	if ld != nil {
 		isBack := ld.backPreds[from.Index]
-		ref := fmt.Sprintf("%d", ld.ordinal)
+		ref := x.loopRef(st, fr, ld)
 		invs, decs := x.loopClauses(st, fr, ld)
 		vars := x.phiScope(b, phiVals)
 		if isBack {
@@ -954,16 +958,43 @@ func (x *Exec) phiScope(b *ssa.BasicBlock, phiVals map[*ssa.Phi]Val) map[string]
 			vars[phi.Comment] = v
 		}
 	}
+	if _, ok := vars["it"]; !ok {
+		// `for i := 0; i < n; i++` written out instead of `range`: the counter is the number of
+		// completed iterations, which is what `it` means (only when exactly one such counter exists)
+		var cnt []Val
+		for phi, v := range phiVals {
+			if len(phi.Edges) != 2 || v.T.Sort != SInt {
+				continue
+			}
+			zero, step := false, false
+			for _, e := range phi.Edges {
+				if c, ok := e.(*ssa.Const); ok && c.Value != nil && c.Int64() == 0 {
+					zero = true
+				}
+				if add, ok := e.(*ssa.BinOp); ok && add.Op == token.ADD && add.X == ssa.Value(phi) {
+					if k, ok := add.Y.(*ssa.Const); ok && k.Value != nil && k.Int64() == 1 {
+						step = true
+					}
+				}
+			}
+			if zero && step {
+				cnt = append(cnt, v)
+			}
+		}
+		if len(cnt) == 1 {
+			vars["it"] = cnt[0]
+		}
+	}
 	return vars
 }
 
 func (x *Exec) loopClauses(st *State, fr *Frame, ld *loopDesc) (invs, decs []Clause) {
-	ref := fmt.Sprintf("%d", ld.ordinal)
-	if fr.contract != nil {
-		invs = append(invs, fr.contract.LoopClauses(ref, "invariant")...)
-		decs = append(decs, fr.contract.LoopClauses(ref, "decreases")...)
+	ref := x.loopRef(st, fr, ld)
+	if c := x.loopContract(st, fr); c != nil {
+		invs = append(invs, c.LoopClauses(ref, "invariant")...)
+		decs = append(decs, c.LoopClauses(ref, "decreases")...)
 	}
-	if fr != st.frames[0] && x.TopC != nil {
+	if fr != st.frames[0] && x.TopC != nil && !x.inNewHelperChain(st, fr) {
 		// loops of an inlined helper, specified by the function under contract: "helper#0"
 		hr := fr.fn.Name() + "#" + ref
 		invs = append(invs, x.TopC.LoopClauses(hr, "invariant")...)
@@ -2020,12 +2051,12 @@ func (x *Exec) nonEscapingAllocs(fn *ssa.Function) []*ssa.Alloc {
 }
 
 func (x *Exec) iterClauses(st *State, fr *Frame, ld *loopDesc) []Clause {
-	ref := fmt.Sprintf("%d", ld.ordinal)
+	ref := x.loopRef(st, fr, ld)
 	var out []Clause
-	if fr.contract != nil {
-		out = append(out, fr.contract.LoopClauses(ref, "back_edge_ensures")...)
+	if c := x.loopContract(st, fr); c != nil {
+		out = append(out, c.LoopClauses(ref, "back_edge_ensures")...)
 	}
-	if fr != st.frames[0] && x.TopC != nil {
+	if fr != st.frames[0] && x.TopC != nil && !x.inNewHelperChain(st, fr) {
 		out = append(out, x.TopC.LoopClauses(fr.fn.Name()+"#"+ref, "back_edge_ensures")...)
 	}
 	return out
@@ -2153,6 +2184,9 @@ func (x *Exec) abstractCallFrame(st *State, cc *ssa.CallCommon) ([]string, bool)
 			return nil, false // dynamic call / closure value
 		}
 		name := CanonName(f)
+		if _, isGetter := getterField(f); isGetter && os.Getenv("GVC_NO_GETTERS") == "" {
+			return nil, true // a generated getter reads one field and writes nothing
+		}
 		if _, ok := x.contractOf(name); ok {
 			return nil, false
 		}
@@ -2202,4 +2236,124 @@ func (x *Exec) abstractCallWritesWorld(cc *ssa.CallCommon) bool {
 		return false
 	}
 	return x.writesWorld(f, 0)
+}
+
+// ---------- loops across extracted helpers ----------
+
+// inNewHelperChain: fr is a frame below the function under contract reached only through helpers that
+// did not exist when the ledger was recorded (code somebody moved out of that function).
+func (x *Exec) inNewHelperChain(st *State, fr *Frame) bool {
+	if x.Top == nil || len(st.frames) < 2 || st.frames[0].fn != x.Top || fr == st.frames[0] {
+		return false
+	}
+	for i, f := range st.frames {
+		if i == 0 {
+			continue
+		}
+		if _, has := x.contractOf(CanonName(f.fn)); has || !isNewHelper(CanonName(f.fn), f.fn) {
+			return false
+		}
+		if f == fr {
+			return true
+		}
+	}
+	return false
+}
+
+// loopContract: whose loop clauses apply to a loop met in frame fr -- the frame's own contract, or the
+// contract of the function under contract when the loop sits in a helper extracted from it.
+func (x *Exec) loopContract(st *State, fr *Frame) *Contract {
+	if x.inNewHelperChain(st, fr) {
+		return x.TopC
+	}
+	return fr.contract
+}
+
+type vloop struct {
+	chain  []ssa.Instruction
+	header *ssa.BasicBlock
+}
+
+// virtualLoops lists the loops of fn in source order with the loops of extracted helpers spliced in at
+// the helper's call.
+func (x *Exec) virtualLoops(fn *ssa.Function, chain []ssa.Instruction, depth int) []vloop {
+	type item struct {
+		pos token.Pos
+		seq int
+		lp  *loopDesc
+		sub []vloop
+	}
+	var items []item
+	for _, ld := range x.loopsOf(fn).order {
+		items = append(items, item{pos: blockPos(ld.header), seq: ld.header.Index * 1000, lp: ld})
+	}
+	n := 0
+	for _, b := range fn.Blocks {
+		for _, in := range b.Instrs {
+			n++
+			c, ok := in.(*ssa.Call)
+			if !ok || depth >= 3 {
+				continue
+			}
+			if f := c.Common().StaticCallee(); f != nil {
+				if _, has := x.contractOf(CanonName(f)); !has && isNewHelper(CanonName(f), f) {
+					if sub := x.virtualLoops(f, append(append([]ssa.Instruction(nil), chain...), in), depth+1); len(sub) > 0 {
+						items = append(items, item{pos: in.Pos(), seq: b.Index*1000 + n%1000, sub: sub})
+					}
+				}
+			}
+		}
+	}
+	sort.SliceStable(items, func(i, j int) bool {
+		if items[i].pos != items[j].pos {
+			return items[i].pos < items[j].pos
+		}
+		return items[i].seq < items[j].seq
+	})
+	var out []vloop
+	for _, it := range items {
+		if it.sub != nil {
+			out = append(out, it.sub...)
+		} else {
+			out = append(out, vloop{chain: chain, header: it.lp.header})
+		}
+	}
+	return out
+}
+
+// loopRef: the ordinal by which contracts refer to the loop -- its position among the loops of its own
+// function, or, for the function under contract and helpers extracted from it, among the loops of that
+// function as if the helpers' bodies were still in place.
+func (x *Exec) loopRef(st *State, fr *Frame, ld *loopDesc) string {
+	own := fmt.Sprintf("%d", ld.ordinal)
+	if x.Top == nil || len(st.frames) == 0 || st.frames[0].fn != x.Top {
+		return own
+	}
+	if fr != st.frames[0] && !x.inNewHelperChain(st, fr) {
+		return own
+	}
+	var chain []ssa.Instruction
+	for i, f := range st.frames {
+		if i > 0 {
+			chain = append(chain, f.callInstr)
+		}
+		if f == fr {
+			break
+		}
+	}
+	for i, v := range x.virtualLoops(x.Top, nil, 0) {
+		if v.header != ld.header || len(v.chain) != len(chain) {
+			continue
+		}
+		same := true
+		for j := range chain {
+			if v.chain[j] != chain[j] {
+				same = false
+			}
+		}
+		if same {
+			return fmt.Sprintf("%d", i)
+		}
+	}
+	return own
 }
